@@ -4,6 +4,7 @@ import (
 	"fmt"
 	"go/token"
 	"go/types"
+	"golang.org/x/tools/go/ssa"
 	"os"
 	"strings"
 )
@@ -43,9 +44,10 @@ type Oblig struct {
 	Props   []string
 	Where   string
 	Func    string
-	Blk     int  // block of the verified function in which the obligation arises
-	WantSat bool // cover/smoke: expected satisfiable
-	Dead    bool // smoke of a return site declared unreachable under the contract (unsat is expected)
+	Blk     int   // block of the verified function in which the obligation arises
+	Res     []Val // post obligations: the values returned at this return site (for replay)
+	WantSat bool  // cover/smoke: expected satisfiable
+	Dead    bool  // smoke of a return site declared unreachable under the contract (unsat is expected)
 	Src     string
 }
 
@@ -74,7 +76,10 @@ type VC struct {
 	specLines   []string
 	axioms      []axiomText
 	regionCache map[string]string
-	lineBlk     []int // block of the verified function that emitted each line (-1: preamble)
+	lineBlk     []int         // block of the verified function that emitted each line (-1: preamble)
+	curRes      []Val         // results of the return site whose postconditions are being posed
+	fnSSA       *ssa.Function // the function under verification (replay)
+	paramVals   []Val         // its symbolic parameters (replay)
 	curBlk      int
 	reach       map[int]map[int]bool // reach[a][b]: block a can reach block b without back edges
 	defMemo     map[string][]memoDef // term -> defined constant (same term, same name)
@@ -185,6 +190,9 @@ func (vc *VC) oblige(name, kind, goal string, props []string, where, src string)
 		}
 	}
 	o := &Oblig{Name: vc.fn + "/" + name, Kind: kind, Goal: goal, NLines: len(vc.lines), Props: props, Where: where, Func: vc.fn, Src: src, Blk: vc.curBlk}
+	if kind == "post" {
+		o.Res = vc.curRes
+	}
 	vc.obls = append(vc.obls, o)
 	return o
 }
